@@ -143,6 +143,10 @@ func (h *H) evalFault(c *core.Case, s *Scenario, dir, world string, r *run) {
 		// standard output cannot take the bytes (ENOSPC): a failed write is a failure, not a silent success
 		mustFail = goodOK
 	case "none", "stdout":
+	case "badflag":
+		// placed where the -stub flag would go: in front of the source directory and the interface arguments
+		cfg.BoolForm = map[string]string{"stub": s.BadArg}
+		mustFail = true
 	case "noargs":
 		cfg.RawArgv = []string{}
 		if outAbs != "" {
@@ -243,6 +247,10 @@ func (h *H) evalFault(c *core.Case, s *Scenario, dir, world string, r *run) {
 	priorExists, priorIsDir, priorContent := readState(outAbs)
 	if outAbs == "" {
 		priorExists = false
+	}
+	if s.EmptyParent && outAbs != "" {
+		_ = os.MkdirAll(filepath.Dir(outAbs), 0o755)
+		r.note("empty_parent_prepared")
 	}
 	if s.DirMode != "" && outAbs != "" {
 		// the existing directory nearest to -out has a mode of its own (metadata is part of "left exactly as they were")
